@@ -185,6 +185,12 @@ func child() {
 		srvreq(rep, kind)
 		return
 	}
+	if os.Getenv("C06_BATCH") == "stalled" {
+		sd, _ := strconv.ParseInt(os.Getenv("C06_SEED"), 10, 64)
+		lv, _ := strconv.Atoi(os.Getenv("C06_LEVEL"))
+		stalled(rep, kind, sd, lv > 0)
+		return
+	}
 	batch, _ := strconv.Atoi(os.Getenv("C06_BATCH"))
 	seed, _ := strconv.ParseInt(os.Getenv("C06_SEED"), 10, 64)
 	level, _ := strconv.Atoi(os.Getenv("C06_LEVEL"))
@@ -407,6 +413,7 @@ func main() {
 		if k == kit.SJSON || k == kit.SSSE || k == kit.LSSE || k == kit.Stdio {
 			jobs = append(jobs, job{k, -2}) // hostile answers to server-issued requests
 		}
+		jobs = append(jobs, job{k, -3}) // peers that stop reading their stream and disconnect with answers waiting
 	}
 	sem := make(chan struct{}, 8)
 	done := make(chan struct{}, len(jobs))
@@ -416,13 +423,17 @@ func main() {
 			defer func() { <-sem; done <- struct{}{} }()
 			tag := fmt.Sprintf("%s-b%d", j.kind, j.batch)
 			batchArg := strconv.Itoa(j.batch)
-			if j.batch < 0 {
+			if j.batch == -1 {
 				tag = fmt.Sprintf("%s-storm", j.kind)
 				batchArg = "storm"
 			}
 			if j.batch == -2 {
 				tag = fmt.Sprintf("%s-srvreq", j.kind)
 				batchArg = "srvreq"
+			}
+			if j.batch == -3 {
+				tag = fmt.Sprintf("%s-stalled", j.kind)
+				batchArg = "stalled"
 			}
 			res := r.SpawnChild("c06", tag, nil, []string{"C06_KIND=" + string(j.kind), "C06_BATCH=" + batchArg, "C06_SEED=" + strconv.FormatInt(r.Seed, 10), "C06_LEVEL=" + strconv.Itoa(level)}, nil, 10*time.Minute)
 			cr := r.Merge(res.Stdout())
@@ -446,8 +457,8 @@ func main() {
 		<-done
 	}
 	nativeFuzz(r)
-	r.Finish("server + hostile peers in a child process per (configuration, batch): the C03 request lattice (every member of every method's request x {absent, null, bool, int, float, string, array, object}, envelope faults, non-JSON / truncated bodies, 10000-deep and 1 MiB values, unsolicited responses with every id type), HTTP-level faults (paths, verbs, headers, GET/DELETE with every session-id class, also on servers without sessions), interleaved with well-formed calls from an independent client every 8 inputs; after each batch canaries on the same, a fresh and the independent connection, net/http ErrorLog scan for recovered panics, goroutines with library frames at quiescence after N/2 and N inputs. Thorough adds truncation at every offset, bit flips and random bytes. Then Go native fuzzing (coverage-guided, iteration-bounded) over the three entry points, seeded with the lattice; a concurrent storm of 6 hostile peers per configuration; on the four configurations with server-issued requests, 40 hostile answer shapes (every JSON type as result and as error, both, neither, retyped / foreign / never-sent ids, duplicates, deep, large, truncated) to a roots/list and to a raw SendRequest the server issued from inside a tool call, each followed by the proper answer and canaries. Distinct = (configuration, input class, answer class) that conformed.",
-		[]string{"'no sequence of bytes' is sampled", "memory exhaustion by unbounded bodies is not driven", "goroutine growth is judged on counts at quiescence, never on time", "coverage-guided fuzzing (go test -fuzz, iteration-bounded) runs over ServeHTTP of the Streamable server, the legacy message endpoint and one stdio line, seeded with the lattice"})
+	r.Finish("server + hostile peers in a child process per (configuration, batch): the C03 request lattice (every member of every method's request x {absent, null, bool, int, float, string, array, object}, envelope faults, non-JSON / truncated bodies, 10000-deep and 1 MiB values, unsolicited responses with every id type), HTTP-level faults (paths, verbs, headers, GET/DELETE with every session-id class, also on servers without sessions), interleaved with well-formed calls from an independent client every 8 inputs; after each batch canaries on the same, a fresh and the independent connection, net/http ErrorLog scan for recovered panics, goroutines with library frames at quiescence after N/2 and N inputs. Thorough adds truncation at every offset, bit flips and random bytes. Then Go native fuzzing (coverage-guided, iteration-bounded) over the three entry points, seeded with the lattice; a concurrent storm of 6 hostile peers per configuration; on the four configurations with server-issued requests, 40 hostile answer shapes (every JSON type as result and as error, both, neither, retyped / foreign / never-sent ids, duplicates, deep, large, truncated) to a roots/list and to a raw SendRequest the server issued from inside a tool call, each followed by the proper answer and canaries. Peers hostile in their READING behaviour (one child per configuration): a peer opens its stream (legacy event stream / Streamable listening stream / the answers of its own pipelined POSTs, JSON or POST-SSE / stdio stdout over OS pipes) over a raw connection, stops reading, sends 320 (thorough 640) seed-shuffled requests of 24 answer classes (results small, 128 KiB and 1 MiB; unknown method / tool / prompt / resource and invalid params with 128 KiB echoed names or ids; handler failures; unencodable results; notifications; answers to requests never sent; tool calls that make the server send requests and notifications to that stream) until answers are parked behind full queues and buffers (parked goroutines are counted; fewer than 8 = scenario not observed, inconclusive), and disconnects by close or reset; 1 peer, then 2 more (thorough: then 4 more). Judged on the goroutine table only: goroutines with library frames that did not exist before, are still parked in a channel operation or lock after the peers left, in a number that grows from phase to phase = leak; an independent client is called while the peers are stalled and afterwards, a fresh client connects afterwards. Distinct = (configuration, input class, answer class) that conformed, (configuration, stalled stream, peers) with back-pressure built.",
+		[]string{"'no sequence of bytes' is sampled", "memory exhaustion by unbounded bodies is not driven", "goroutine growth is judged on counts at quiescence, never on time", "after stalled peers left, the harness waits up to 50 s for their goroutines to end before it looks at what is parked; a set that is still changing is inconclusive, not a violation", "a peer that stops reading is modelled by a raw TCP connection (8 KiB receive buffer) / an OS pipe that is simply not read; how many answers the kernel absorbs before the server blocks is measured, not assumed", "coverage-guided fuzzing (go test -fuzz, iteration-bounded) runs over ServeHTTP of the Streamable server, the legacy message endpoint and one stdio line, seeded with the lattice"})
 }
 
 func tail(s string, n int) string {
